@@ -1634,6 +1634,11 @@ pub(crate) fn compile_ast_to_ir_to_asm(
         .unwrap_or(false);
     options.force_verify_ir = force_verify_ir;
     ir.verify_ssa_dominance = force_verify_ir;
+    // Verification hook: SSA dominance checking alone, without the other `force_verify_ir` checks.
+    #[cfg(fuellabs_sway_verif)]
+    if std::env::var_os("SWAY_VERIF_SSA_DOMINANCE").is_some() {
+        ir.verify_ssa_dominance = true;
+    }
 
     let res = if let Err(ir_error) = pass_mgr.run(&mut ir, &pass_group, &options) {
         Err(handler.emit_err(CompileError::InternalOwned(
